@@ -149,11 +149,14 @@ def run(pid, tier, seed):
             elif c["tampered"] == 0:
                 if not (all(honest) and c["same_tpk"] and c["sk_on_poly"] and c["tpk_is_secret"] and c["sigs_verify"]):
                     hit("dkg_honest", c, "honest DKG through the public API: KeyGen rejected, or the stored threshold key / shares / "
-                        "aggregated signatures are inconsistent: %s n=%d t=%d participants=%s" % (c["pkg"], c["n"], c["t"], c.get("ids")))
+                        "aggregated signatures are inconsistent: %s n=%d t=%d participants=%s%s" % (
+                            c["pkg"], c["n"], c["t"], c.get("ids"),
+                            " [run %d on the SAME party objects, reuse group %d]" % (c["reuse_run"], c["reuse_group"]) if c.get("reuse_group") else ""))
             elif c["t"] < c["n"]:
                 if any(honest):
-                    hit("dkg_miss", c, "KeyGen of an honest party accepted although party %d revealed a key off the polynomial: %s n=%d t=%d"
-                        % (c["tampered"], c["pkg"], c["n"], c["t"]))
+                    hit("dkg_miss", c, "KeyGen of an honest party accepted although party %d revealed a key off the polynomial: %s n=%d t=%d participants=%s%s"
+                        % (c["tampered"], c["pkg"], c["n"], c["t"], c.get("ids"),
+                           " [run %d on the SAME party objects, reuse group %d]" % (c["reuse_run"], c["reuse_group"]) if c.get("reuse_group") else ""))
             else:
                 undetectable += 1
         elif k == "choose":
@@ -229,6 +232,9 @@ def run(pid, tier, seed):
         cross=dict(collections.Counter(
             ("honest" if c["tampered"] == 0 else "moved") + ("/t<n" if c["t"] < c["n"] else "/t=n") +
             ("/accepted" if c["accepted"] else "/rejected") for c in cases if c["kind"] == "cross")),
+        dkg_instance_reuse=dict(collections.Counter(
+            "%s run %d %s" % (c["pkg"], c["reuse_run"], "honest" if c["tampered"] == 0 else "moved key")
+            for c in cases if c["kind"] == "dkg" and c.get("reuse_group"))),
         dkg_participant_sets_not_1_to_n=dict(collections.Counter(
             "%s %s" % (c["pkg"], c.get("ids")) for c in cases if c["kind"] == "dkg" and c.get("ids") and c["ids"] != list(range(1, c["n"] + 1)))),
         dkg=dict(collections.Counter(
